@@ -335,12 +335,13 @@ typedef bluetoe::pairing_keyboard< io_t, io >               o_kbd;
 typedef bluetoe::pairing_numeric_output< io_t, io >         o_disp;
 
 template < class Manager, std::size_t Mtu, typename ... Base >
-static sm_if* make_io( const std::string& ioc, bool allow_kbd )
+static sm_if* make_io( const std::string& ioc, bool all )
 {
     if ( ioc == "none" )    return new inst< Manager, Mtu, Base... >;
+    if ( ioc == "dispyn" )  return new inst< Manager, Mtu, Base..., o_disp, o_yn >;
+    if ( !all ) return nullptr;
     if ( ioc == "yesno" )   return new inst< Manager, Mtu, Base..., o_yn >;
     if ( ioc == "disp" )    return new inst< Manager, Mtu, Base..., o_disp >;
-    if ( ioc == "dispyn" )  return new inst< Manager, Mtu, Base..., o_disp, o_yn >;
     return nullptr;
 }
 
@@ -356,13 +357,17 @@ static sm_if* make_legacy( const std::string& ioc )
 
 static sm_if* make( const std::string& variant, const std::string& ioc, bool bond )
 {
+    // to keep the build time down, managers without bonding data base exist for the IO
+    // configurations `none` and `dispyn` only
+    if ( !bond && ioc != "none" && ioc != "dispyn" )
+        return nullptr;
     if ( variant == "legacy" )
-        return bond ? make_legacy< o_oob, o_bond >( ioc ) : make_legacy< o_oob >( ioc );
+        return bond ? make_legacy< o_oob, o_bond >( ioc ) : make_io< bluetoe::legacy_security_manager, 23, o_oob >( ioc, false );
     if ( variant == "lesc" )
-        return bond ? make_io< bluetoe::lesc_security_manager, 65, o_oob, o_bond >( ioc, false )
+        return bond ? make_io< bluetoe::lesc_security_manager, 65, o_oob, o_bond >( ioc, true )
                     : make_io< bluetoe::lesc_security_manager, 65, o_oob >( ioc, false );
     if ( variant == "both" )
-        return bond ? make_io< bluetoe::security_manager, 65, o_oob, o_bond >( ioc, false )
+        return bond ? make_io< bluetoe::security_manager, 65, o_oob, o_bond >( ioc, true )
                     : make_io< bluetoe::security_manager, 65, o_oob >( ioc, false );
     return nullptr;
 }
